@@ -1,6 +1,7 @@
 \* Example: the design of the unchanged tree (all five deviations); every broken clause goes through one.
 CONSTANTS
   Temps <- T_c
+  InitReaders = 1
   Filters <- F_all
   AttrSeqs <- AS_five
   Limit = 3
